@@ -7,6 +7,7 @@ import (
 	"github.com/alicebob/miniredis/v2"
 	"github.com/go-redis/redis/v8"
 	"math/rand"
+	"strings"
 	"sync"
 	"sync/atomic"
 	"time"
@@ -113,6 +114,105 @@ func driveKvWide(opt *Options) error {
 				}
 			}
 		}
+	}
+	// one storage instance asked for MANY different ListKeys patterns, the early ones again at the end (an implementation may
+	// keep what it prepared for a pattern): 40 keys in 4 groups, 1500 patterns (some 850 distinct ones) of simple shapes whose answer the
+	// driver can tell itself (group/*, group/0?, literal keys, *suffix, patterns that match nothing)
+	{
+		var st kvs.Storage
+		if opt.Variant == "redis" {
+			be, err := newRedisBackend()
+			if err != nil {
+				return err
+			}
+			st = be.st
+			defer redisPool.Put(be)
+		} else {
+			st = inmem.New()
+		}
+		var keys []string
+		for g := 0; g < 4; g++ {
+			for i := 0; i < 10; i++ {
+				k := fmt.Sprintf("pat/g%d/%02d", g, i)
+				keys = append(keys, k)
+				if _, err := st.Put(ctx, kvs.Record{Key: k, Value: []byte("v")}); err != nil {
+					return err
+				}
+			}
+		}
+		type pq struct {
+			pat  string
+			want func(k string) bool
+		}
+		var pats []pq
+		for g := 0; g < 4; g++ {
+			g := g
+			pats = append(pats, pq{fmt.Sprintf("pat/g%d/*", g), func(k string) bool { return strings.HasPrefix(k, fmt.Sprintf("pat/g%d/", g)) }})
+		}
+		for i := 0; len(pats) < 1500; i++ {
+			i := i
+			switch i % 6 {
+			case 0: // a literal key, present or not
+				lit := fmt.Sprintf("pat/g%d/%02d", i%5, (i/5)%14)
+				pats = append(pats, pq{lit, func(k string) bool { return k == lit }})
+			case 1: // all keys with one suffix
+				suf := fmt.Sprintf("%02d", (i/4)%12)
+				pats = append(pats, pq{"pat/*/" + suf, func(k string) bool { return strings.HasSuffix(k, "/"+suf) }})
+			case 2, 4, 5: // nothing at all, every time another pattern
+				pats = append(pats, pq{fmt.Sprintf("none-%d/*", i), func(string) bool { return false }})
+			default: // one group, one leading digit
+				g, d := i%4, (i/4)%3
+				pre := fmt.Sprintf("pat/g%d/%d", g, d)
+				pats = append(pats, pq{pre + "?", func(k string) bool { return strings.HasPrefix(k, pre) && len(k) == len(pre)+1 }})
+			}
+		}
+		seenPat := map[string]bool{}
+		distinct := 0
+		wrong, firstWrong := 0, ""
+		ask := func(q pq) error {
+			if !seenPat[q.pat] {
+				seenPat[q.pat] = true
+				distinct++
+			}
+			it, err := st.ListKeys(ctx, q.pat)
+			if err != nil {
+				return err
+			}
+			got := map[string]bool{}
+			for it.HasNext() {
+				k, ok := it.Next()
+				if !ok {
+					break
+				}
+				got[k] = true
+			}
+			it.Close()
+			bad := false
+			for _, k := range keys {
+				if got[k] != q.want(k) {
+					bad = true
+				}
+				delete(got, k)
+			}
+			if bad || len(got) > 0 {
+				wrong++
+				if firstWrong == "" {
+					firstWrong = q.pat
+				}
+			}
+			return nil
+		}
+		for _, q := range pats {
+			if err := ask(q); err != nil {
+				return err
+			}
+		}
+		for _, q := range pats[:300] { // ... and the early ones again
+			if err := ask(q); err != nil {
+				return err
+			}
+		}
+		tw.Emit(map[string]any{"op": "ManyPatterns", "distinct": distinct, "asked": len(pats) + 300, "wrong": wrong, "first_wrong": firstWrong})
 	}
 	return nil
 }
